@@ -55,7 +55,9 @@ type gen struct {
 	nfun     int
 	ncap     int
 	force    *force
-	where    string // single-value consumer of the form being generated ("" = values are passed on)
+	where    string // nearest single-value consumer of the form being generated ("top": all values are the result)
+	fnWhere  string // consumer of the values of the next function body ("" = the current one)
+	shadow   bool   // every variable is visible from nested function bodies and names are reused
 }
 
 // consumer names the note suffix of the single-value position (parent,pos).
@@ -89,10 +91,10 @@ func consumer(parent, pos string) string {
 			return parent + "-" + pos
 		}
 		return "arg"
-	case "base", "step2":
-		return ""
+	case "body":
+		return "discard"
 	}
-	return ""
+	return "" // then / else / last / result: values are passed on
 }
 
 var (
@@ -105,7 +107,7 @@ var (
 // ok tells whether a construct labelled with note may be generated: always,
 // unless it is on the avoid list and this case does not ask for it.
 func (g *gen) ok(note string) bool {
-	if _, broken := knownBroken[note]; broken {
+	if isBroken(note) {
 		return g.dirty[note]
 	}
 	return true
@@ -114,7 +116,7 @@ func (g *gen) ok(note string) bool {
 // okFamily: as ok, for a family of notes sharing a prefix.
 func (g *gen) okFamily(prefix string) bool {
 	broken := false
-	for k := range knownBroken {
+	for _, k := range dirtyKeys {
 		if strings.HasPrefix(k, prefix) {
 			broken = true
 			if g.dirty[k] {
@@ -153,10 +155,10 @@ func (g *gen) bare() *ref.V {
 	return form("vtr", num(g.marker))
 }
 
-var poolNames = []string{"x", "y", "z", "a", "b"}
+var poolNames = []string{"x", "y", "z", "a", "b", "k"}
 
 func (g *gen) visible(v *gvar) bool {
-	return v.level == g.level || v.capt || g.dirty["dynleak"]
+	return v.level == g.level || v.capt || g.shadow
 }
 
 // candidates returns the innermost visible variables of one of the types.
@@ -189,17 +191,18 @@ func (g *gen) pickVar(write bool, ts ...typ) (gvar, bool) {
 	return c[g.r.IntN(len(c))], true
 }
 
-// newName chooses a variable name for a new binding. Capturable variables
-// get a unique name (see Rule: avoid set of the closure-lookup finding).
+// newName chooses a variable name for a new binding from a small pool, so
+// that names are reused between nested bindings, function parameters,
+// closure-creating scopes and the scopes closures are called from.
 func (g *gen) newName(avoid map[string]bool) (string, bool) {
-	if !g.dirty["dynleak"] && g.chance(0.35) {
+	if !g.shadow && g.chance(0.35) {
 		g.ncap++
 		return fmt.Sprintf("c%d", g.ncap), true
 	}
 	for k := 0; k < 8; k++ {
 		n := poolNames[g.r.IntN(len(poolNames))]
 		if !avoid[n] {
-			return n, g.dirty["dynleak"]
+			return n, g.shadow
 		}
 	}
 	g.ncap++
@@ -213,7 +216,7 @@ func (g *gen) newName(avoid map[string]bool) (string, bool) {
 func (g *gen) reuseName(avoid map[string]bool) (string, bool) {
 	var names []string
 	for _, v := range g.candidates(false, tI) {
-		if !v.capt && v.level == g.level && !avoid[v.name] {
+		if !avoid[v.name] {
 			names = append(names, v.name)
 		}
 	}
@@ -332,7 +335,7 @@ func (g *gen) intList() *ref.V {
 
 // all form kinds of the generator
 var allKinds = []string{"lit", "var", "quote", "call", "ucall", "progn", "prog1", "if", "when", "unless", "cond", "case",
-	"and", "or", "let", "let*", "setq", "lambda", "lambda-call", "funcall", "apply", "mapcar", "closure", "rec",
+	"and", "or", "let", "let*", "setq", "lambda", "lambda-call", "funcall", "apply", "mapcar", "closure", "rec", "fnlist", "ll", "loopclosure",
 	"dolist", "dotimes", "do", "do*", "mvb", "mvl", "values"}
 
 // expr produces an expression of type t at depth d.
@@ -375,8 +378,8 @@ func (g *gen) sub(parent, pos string, t typ, d int) *ref.V {
 	marked := g.chance(g.markP)
 	if marked {
 		g.where = "arg"
-	} else {
-		g.where = consumer(parent, pos)
+	} else if w := consumer(parent, pos); w != "" {
+		g.where = w
 	}
 	e = g.expr(t, d+1)
 	g.where = saved
@@ -456,7 +459,10 @@ func (g *gen) test(parent string, d, sel int) *ref.V {
 		return g.falsy(d)
 	}
 	if g.chance(0.5) {
+		saved := g.where
+		g.where = "arg"
 		e := form(g.pick("<", "=", ">", "<=", ">="), g.expr(tI, d+1), g.expr(tI, d+1))
+		g.where = saved
 		if g.chance(g.markP) {
 			e = g.mark(e)
 		}
@@ -515,6 +521,28 @@ func (g *gen) kindExpr(kind string, t typ, d int) *ref.V {
 			}
 			return form("quote", g.intList())
 		case tA:
+			if g.chance(0.4) {
+				// 'x / (quote x) before a datum of any kind
+				for try := 0; try < 6; try++ {
+					var q *ref.V
+					if dat := datum(g.r, 1); g.chance(0.6) {
+						q = ref.Quote(dat)
+					} else {
+						q = form("quote", dat)
+					}
+					notes := map[string]bool{}
+					ref.StaticNotes([]*ref.V{q}, notes)
+					usable := true
+					for n := range notes {
+						if !g.ok(n) {
+							usable = false
+						}
+					}
+					if usable {
+						return q
+					}
+				}
+			}
 			dat := g.pick2(sym("p"), list(sym("q"), num(1), list(sym("r"))), ref.Str("s"), list(sym("car"), sym("x")),
 				ref.Dotted(num(2), num(1)), sym(":k"))
 			if g.chance(0.5) {
@@ -578,7 +606,7 @@ func (g *gen) kindExpr(kind string, t typ, d int) *ref.V {
 		var cls []*ref.V
 		for i := 0; i < n; i++ {
 			tst := g.test("cond", d, 0)
-			if t == tA && g.want("cond-test-only", 0.15) {
+			if t == tA && g.chance(0.15) {
 				cls = append(cls, list(tst))
 				continue
 			}
@@ -684,6 +712,7 @@ func (g *gen) kindExpr(kind string, t typ, d int) *ref.V {
 		if t == tF2 {
 			n = 2
 		}
+		g.fnWhere = "any" // a function object: called from anywhere
 		ps, body := g.lambdaParts("lambda", n, tI, d)
 		return form("lambda", append2([]*ref.V{ps}, body...)...)
 	case "lambda-call":
@@ -693,12 +722,12 @@ func (g *gen) kindExpr(kind string, t typ, d int) *ref.V {
 			args[i] = g.sub("lambda-call", "arg", tI, d)
 		}
 		ps, body := g.lambdaParts("lambda", n, t, d)
-		if g.dirty["lambda-call-bare-free-variable"] && g.level > 0 {
+		if g.level > 0 && g.chance(0.2) {
+			// the body ends in a bare (often free) variable
 			if v, ok := g.pickVar(false, t); ok {
 				body[len(body)-1] = sym(v.name)
 			}
 		}
-		g.guardBare(ps, body)
 		lam := form("lambda", append2([]*ref.V{ps}, body...)...)
 		return list(append2([]*ref.V{lam}, args...)...)
 	case "funcall":
@@ -708,7 +737,7 @@ func (g *gen) kindExpr(kind string, t typ, d int) *ref.V {
 				return form("funcall", g.sub("funcall", "fn", tF1, d), g.sub("funcall", "arg", tI, d))
 			}
 			return form("funcall", g.sub("funcall", "fn", tF2, d), g.sub("funcall", "arg", tI, d), g.sub("funcall", "arg", tI, d))
-		case g.want("funcall-0", 0.15):
+		case g.chance(0.15):
 			_, body := g.lambdaParts("lambda", 0, t, d)
 			return form("funcall", form("lambda", append2([]*ref.V{ref.Nil}, body...)...))
 		}
@@ -751,10 +780,8 @@ func (g *gen) kindExpr(kind string, t typ, d int) *ref.V {
 		// empty-list finding is asked for (or a template forces the child)
 		ml := func() *ref.V {
 			forced := g.force != nil && !g.force.used && g.force.parent == "mapcar" && g.force.pos == "list"
-			if forced || g.ok("mapcar-empty-list") {
-				return g.sub("mapcar", "list", tL, d)
-			}
-			return form("cons", g.lit(), g.sub("mapcar", "list", tL, d))
+			_ = forced
+			return g.sub("mapcar", "list", tL, d)
 		}
 		switch t {
 		case tL:
@@ -763,6 +790,7 @@ func (g *gen) kindExpr(kind string, t typ, d int) *ref.V {
 			}
 			return form("mapcar", g.sub("mapcar", "fn", tF1, d), ml())
 		case tA:
+			g.fnWhere = "mapcar-result"
 			ps, body := g.lambdaParts("lambda", 1, tA, d)
 			lam := form("lambda", append2([]*ref.V{ps}, body...)...)
 			return form("mapcar", lam, ml())
@@ -770,6 +798,12 @@ func (g *gen) kindExpr(kind string, t typ, d int) *ref.V {
 		return nil
 	case "closure":
 		return g.closureForm(t, d)
+	case "fnlist":
+		return g.fnListForm(t, d)
+	case "ll":
+		return g.lambdaListForm(t, d)
+	case "loopclosure":
+		return g.loopClosureForm(t, d)
 	case "rec":
 		return g.recForm(t, d)
 	case "dolist":
@@ -854,9 +888,7 @@ func (g *gen) kindExpr(kind string, t typ, d int) *ref.V {
 		if t != tI && t != tA {
 			return nil
 		}
-		if g.where == "" || !g.ok("mv-into:"+g.where) {
-			// values here would be passed on to a consumer the generator
-			// does not track: left to the deliberate mvExpr paths
+		if !g.mvOK() {
 			return nil
 		}
 		if g.chance(0.4) {
@@ -867,30 +899,21 @@ func (g *gen) kindExpr(kind string, t typ, d int) *ref.V {
 	return nil
 }
 
-// guardBare: in ((lambda (p) body) args) a body form that is a bare free
-// variable is a listed finding; the clean stream passes it through a marker.
-func (g *gen) guardBare(ps *ref.V, body []*ref.V) {
-	if g.ok("lambda-call-bare-free-variable") {
-		return
+// mvOK: may a VALUES form stand here, given the nearest single-value
+// consumer (an open finding about that consumer keeps it out of the clean
+// stream; "any" = the consumer is not known, e.g. a function body).
+func (g *gen) mvOK() bool {
+	if g.where == "any" {
+		return g.okFamily("mv-into:")
 	}
-	params := map[string]bool{}
-	for _, p := range ps.L {
-		params[p.S] = true
-	}
-	for i, b := range body {
-		if b.K == ref.KSym && b != ref.Nil && b != ref.T && !params[b.S] {
-			body[i] = g.mark(b)
-		}
-	}
+	return g.ok("mv-into:" + g.where)
 }
 
 func (g *gen) pick2(xs ...*ref.V) *ref.V { return xs[g.r.IntN(len(xs))] }
 
 func (g *gen) loopName() (string, bool) {
 	n, _ := g.newName(nil)
-	// loop variables are never captured by closures in the clean stream:
-	// whether an iteration construct rebinds or assigns is not defined
-	return n, g.dirty["dynleak"]
+	return n, g.shadow
 }
 
 func (g *gen) loopBody(kind string, d int) []*ref.V {
@@ -968,6 +991,11 @@ func (g *gen) builtinCall(t typ, d int) *ref.V {
 // lambdaParts generates a parameter list and a body of result type t.
 func (g *gen) lambdaParts(parent string, n int, t typ, d int) (*ref.V, []*ref.V) {
 	mark := len(g.vars)
+	savedWhere := g.where
+	if g.fnWhere != "" {
+		g.where, g.fnWhere = g.fnWhere, ""
+	}
+	defer func() { g.where = savedWhere }()
 	g.level++
 	var ps []*ref.V
 	avoid := map[string]bool{}
@@ -1003,7 +1031,7 @@ func (g *gen) letForm(kind string, t typ, d int) *ref.V {
 		reused := false
 		if g.chance(0.35) {
 			if rn, ok := g.reuseName(avoid); ok {
-				nm, c, reused = rn, g.dirty["dynleak"], true
+				nm, c, reused = rn, g.shadow, true
 			}
 		}
 		avoid[nm] = true
@@ -1109,8 +1137,8 @@ func (g *gen) userFunc(d int) *gfunc {
 func (g *gen) defineFunc(arity, mv, d int) *gfunc {
 	g.nfun++
 	name := fmt.Sprintf("uf%d", g.nfun)
-	saved, lvl := g.vars, g.level
-	g.vars, g.level = nil, 0
+	saved, lvl, savedWhere := g.vars, g.level, g.where
+	g.vars, g.level, g.where = nil, 0, "any"
 	var ps []*ref.V
 	avoid := map[string]bool{}
 	for i := 0; i < arity; i++ {
@@ -1125,7 +1153,7 @@ func (g *gen) defineFunc(arity, mv, d int) *gfunc {
 	} else {
 		body = g.bodyForms("defun", tI, d, 1)
 	}
-	g.vars, g.level = saved, lvl
+	g.vars, g.level, g.where = saved, lvl, savedWhere
 	g.defs = append(g.defs, form("defun", append2([]*ref.V{sym(name), list(ps...)}, body...)...))
 	g.funcs = append(g.funcs, gfunc{name: name, arity: arity, mv: mv})
 	return &g.funcs[len(g.funcs)-1]
@@ -1141,8 +1169,8 @@ func (g *gen) recForm(t typ, d int) *ref.V {
 	}
 	g.nfun++
 	name := fmt.Sprintf("uf%d", g.nfun)
-	saved, lvl := g.vars, g.level
-	g.vars, g.level = nil, 0
+	saved, lvl, savedWhere := g.vars, g.level, g.where
+	g.vars, g.level, g.where = nil, 0, "any"
 	g.push("n", tI, false, true)
 	var def *ref.V
 	wantList := t == tL || (t == tA && g.chance(0.3))
@@ -1168,7 +1196,7 @@ func (g *gen) recForm(t typ, d int) *ref.V {
 					form("+", down, form(name, form("-", sym("n"), num(2)), sym("acc")))))
 		}
 	}
-	g.vars, g.level = saved, lvl
+	g.vars, g.level, g.where = saved, lvl, savedWhere
 	g.defs = append(g.defs, def)
 	g.funcs = append(g.funcs, gfunc{name: name, arity: 2, list: true})
 	cnt := num(int64(g.r.IntN(4)))
@@ -1193,14 +1221,14 @@ func (g *gen) closureForm(t typ, d int) *ref.V {
 		}
 	}
 	fname := func() string {
-		if g.dirty["dynleak"] {
+		if g.shadow {
 			return poolName()
 		}
 		return cap1()
 	}
 	if t == tF1 {
 		c := cap1()
-		if g.dirty["dynleak"] {
+		if g.shadow {
 			c = poolName()
 		}
 		init := g.sub("closure", "init", tI, d)
@@ -1211,7 +1239,7 @@ func (g *gen) closureForm(t typ, d int) *ref.V {
 		return nil
 	}
 	arg := func() *ref.V { return g.sub("closure", "arg", tI, d) }
-	if g.dirty["dynleak"] && g.chance(0.6) {
+	if g.shadow && g.chance(0.3) {
 		// the closure is called where its free variable has another binding
 		c, f := poolName(), poolName()
 		lam := form("lambda", list(sym("d")), form("setq", sym(c), form("+", sym(c), sym("d"))))
@@ -1236,7 +1264,7 @@ func (g *gen) closureForm(t typ, d int) *ref.V {
 	switch g.r.IntN(5) {
 	case 0: // counter, read back through the variable
 		c, f := cap1(), fname()
-		if g.dirty["dynleak"] {
+		if g.shadow {
 			c = poolName()
 		}
 		res := form("list", form("funcall", sym(f), arg()), form("funcall", sym(f), arg()), sym(c))
@@ -1257,7 +1285,7 @@ func (g *gen) closureForm(t typ, d int) *ref.V {
 		if inc == get {
 			get = cap1()
 		}
-		if g.dirty["dynleak"] {
+		if g.shadow {
 			c = poolName()
 		}
 		res := form("list", form("funcall", sym(get), num(0)), form("funcall", sym(inc), arg()), form("funcall", sym(get), num(0)),
@@ -1274,14 +1302,23 @@ func (g *gen) closureForm(t typ, d int) *ref.V {
 		return g.wrapType(t, form("let", list(list(sym(fs), ref.Nil)),
 			form("dolist", list(sym(e), g.sub("closure", "list", tL, d)), body), res))
 	}
-	// closure defined by defun inside a binding (not in compiled mode:
-	// the call would be a forward reference, which is C08's subject)
-	if g.compile {
-		return nil
-	}
+	// closure defined by defun inside a binding (in compiled mode the calls
+	// are forward references)
 	g.nfun++
 	name := fmt.Sprintf("uf%d", g.nfun)
+	if g.chance(0.5) {
+		// redefine a function that already exists at top level: the new
+		// definition must read the binding of this let
+		for _, f := range g.funcs {
+			if f.arity == 1 && f.mv == 0 && !f.list {
+				name = f.name
+			}
+		}
+	}
 	c := cap1()
+	if g.shadow {
+		c = poolName()
+	}
 	res := form("list", form(name, arg()), form(name, arg()), sym(c))
 	return g.wrapType(t, form("let", list(list(sym(c), g.sub("closure", "init", tI, d))),
 		form("defun", sym(name), list(sym("d")), form("setq", sym(c), form("+", sym(c), sym("d")))), res))
@@ -1344,7 +1381,7 @@ func (g *gen) doForm(kind string, t typ, d int) *ref.V {
 	var extra []nb
 	var stepsTodo []int
 	if kind == "do*" {
-		g.push(i, tI, g.dirty["dynleak"], true)
+		g.push(i, tI, g.shadow, true)
 	}
 	ne := g.r.IntN(3)
 	for k := 0; k < ne; k++ {
@@ -1371,7 +1408,7 @@ func (g *gen) doForm(kind string, t typ, d int) *ref.V {
 		if reused {
 			shadowed = append(shadowed, nm)
 		}
-		if g.want(kind+"-nostep", 0.2) {
+		if g.chance(0.2) {
 			specs = append(specs, list(sym(nm), init))
 		} else {
 			specs = append(specs, list(sym(nm), init, nil))
@@ -1379,13 +1416,13 @@ func (g *gen) doForm(kind string, t typ, d int) *ref.V {
 		}
 		extra = append(extra, nb{nm, bt})
 		if kind == "do*" {
-			g.push(nm, bt, g.dirty["dynleak"], false)
+			g.push(nm, bt, g.shadow, false)
 		}
 	}
 	if kind == "do" {
-		g.push(i, tI, g.dirty["dynleak"], true)
+		g.push(i, tI, g.shadow, true)
 		for _, e := range extra {
-			g.push(e.n, e.t, g.dirty["dynleak"], false)
+			g.push(e.n, e.t, g.shadow, false)
 		}
 	}
 	specs[0] = list(sym(i), num(0), step)
@@ -1403,8 +1440,8 @@ func (g *gen) doForm(kind string, t typ, d int) *ref.V {
 	if g.chance(0.2) {
 		test = g.mark(test)
 	}
-	if g.want(kind+"-test-atom", 0) {
-		// end test held in a variable (a listed finding: never returns)
+	if g.chance(0.15) {
+		// the end test is an atom: a variable holding the test value
 		specs = append(specs, list(sym("done"), ref.Nil, test))
 		test = sym("done")
 	}
@@ -1421,7 +1458,7 @@ func (g *gen) doForm(kind string, t typ, d int) *ref.V {
 func (g *gen) mvExpr(parent string, n, d int) *ref.V {
 	g.budget--
 	vals := func() *ref.V {
-		if n == 0 || g.want("values-0", 0.05) {
+		if n == 0 || g.chance(0.05) {
 			return form("values")
 		}
 		args := make([]*ref.V, n)
@@ -1501,15 +1538,15 @@ func (g *gen) mvExpr(parent string, n, d int) *ref.V {
 		case "dolist-result":
 			nm, _ := g.loopName()
 			lst := g.sub("dolist", "list", tL, d)
-			g.push(nm, tA, g.dirty["dynleak"], true)
+			g.push(nm, tA, g.shadow, true)
 			return form("dolist", list(sym(nm), lst, inner()), g.bare())
 		case "dotimes-result":
 			nm, _ := g.loopName()
-			g.push(nm, tI, g.dirty["dynleak"], true)
+			g.push(nm, tI, g.shadow, true)
 			return form("dotimes", list(sym(nm), num(int64(g.r.IntN(3))), inner()), g.bare())
 		case "do-result", "do*-result":
 			nm, _ := g.loopName()
-			g.push(nm, tI, g.dirty["dynleak"], true)
+			g.push(nm, tI, g.shadow, true)
 			return form(strings.TrimSuffix(k, "-result"), list(list(sym(nm), num(0), form("1+", sym(nm)))), list(form(">=", sym(nm), num(int64(g.r.IntN(3)))), inner()), g.bare())
 		case "multiple-value-bind":
 			nm, c := g.newName(nil)
@@ -1618,4 +1655,222 @@ func (g *gen) snippet(note string) *ref.V {
 		}
 	}
 	return nil
+}
+
+// fnListForm: functions as data - held in a list, taken out with car / nth /
+// second or mapped over, then called.
+func (g *gen) fnListForm(t typ, d int) *ref.V {
+	if !isData(t) {
+		return nil
+	}
+	n := 2 + g.r.IntN(2)
+	arg := func() *ref.V { return g.sub("fnlist", "arg", tI, d) }
+	if t == tI && g.chance(0.3) {
+		fs := make([]*ref.V, n)
+		for i := range fs {
+			fs[i] = g.sub("fnlist", "fn", tF2, d)
+		}
+		return form("apply", form("nth", num(int64(g.r.IntN(n))), form("list", fs...)), arg(), form("list", arg()))
+	}
+	fs := make([]*ref.V, n)
+	for i := range fs {
+		fs[i] = g.sub("fnlist", "fn", tF1, d)
+	}
+	lst := form("list", fs...)
+	f, _ := g.newName(nil)
+	switch t {
+	case tI:
+		switch g.r.IntN(3) {
+		case 0:
+			return form("funcall", form("nth", num(int64(g.r.IntN(n))), lst), arg())
+		case 1:
+			return form("funcall", form(g.pick("car", "second"), lst), arg())
+		}
+		return form("apply", form("car", form("cdr", lst)), form("list", arg()))
+	case tL:
+		a := arg()
+		return form("mapcar", form("lambda", list(sym(f)), form("funcall", sym(f), a)), lst)
+	}
+	// a list of functions bound to a variable, used several times
+	return form("let", list(list(sym(f), lst)),
+		form("list", form("funcall", form("car", sym(f)), arg()), form("mapcar", form("second", sym(f)), g.sub("fnlist", "list", tL, d)),
+			form("mapcar", form("lambda", list(sym("fn")), form("funcall", sym("fn"), num(1))), sym(f))))
+}
+
+// lambdaListForm: a function with &optional / &rest / &key parameters whose
+// init forms see the parameters to their left, called with some of the
+// arguments absent.
+func (g *gen) lambdaListForm(t typ, d int) *ref.V {
+	if !isData(t) {
+		return nil
+	}
+	style := g.r.IntN(3) // 0 funcall of a lambda, 1 lambda in operator position, 2 defun
+	saved, lvl, savedWhere := g.vars, g.level, g.where
+	mark := len(g.vars)
+	if style == 2 {
+		g.vars, g.level, g.where = nil, 0, "any"
+	} else {
+		g.level++
+	}
+	// parameter names differ from every visible variable: an init form may
+	// then not mention a parameter to its right (how slip orders supplied
+	// keyword arguments and defaults there is C04's subject)
+	avoid := map[string]bool{}
+	for _, v := range g.vars {
+		avoid[v.name] = true
+	}
+	name := func() string {
+		n, _ := g.newName(avoid)
+		avoid[n] = true
+		return n
+	}
+	p1 := name()
+	g.push(p1, tI, true, false)
+	ll := []*ref.V{sym(p1)}
+	variant := g.r.IntN(4)
+	var ints, anys []string // parameters that are integers / anything
+	var rest string
+	var keys []string
+	ints = append(ints, p1)
+	opt := func(kw bool) {
+		p2 := name()
+		ll = append(ll, list(sym(p2), g.sub("ll", "init", tI, d)))
+		g.push(p2, tI, true, false)
+		ints = append(ints, p2)
+		if kw {
+			keys = append(keys, p2)
+		}
+		if g.chance(0.5) {
+			p3 := name()
+			if g.chance(0.5) {
+				ll = append(ll, sym(p3))
+			} else {
+				ll = append(ll, list(sym(p3), ref.Nil))
+			}
+			g.push(p3, tA, true, false)
+			anys = append(anys, p3)
+			if kw {
+				keys = append(keys, p3)
+			}
+		}
+	}
+	nopt := 0
+	switch variant {
+	case 0:
+		ll = append(ll, sym("&optional"))
+		opt(false)
+		nopt = len(ll) - 2
+	case 1:
+		rest = name()
+		ll = append(ll, sym("&rest"), sym(rest))
+	case 2:
+		ll = append(ll, sym("&key"))
+		opt(true)
+	default:
+		ll = append(ll, sym("&optional"))
+		opt(false)
+		nopt = len(ll) - 2
+		rest = name()
+		ll = append(ll, sym("&rest"), sym(rest))
+	}
+	if rest != "" {
+		g.push(rest, tL, true, false)
+	}
+	body := g.stmts("lambda", d, 1)
+	var parts []*ref.V
+	for _, n := range ints {
+		parts = append(parts, sym(n))
+	}
+	switch t {
+	case tI:
+		if rest != "" {
+			parts = append(parts, form("length", sym(rest)))
+		}
+		body = append(body, form("+", parts...))
+	case tL:
+		if rest != "" {
+			body = append(body, form("append", form("list", parts...), sym(rest)))
+		} else {
+			body = append(body, form("list", parts...))
+		}
+	default:
+		for _, n := range anys {
+			parts = append(parts, sym(n))
+		}
+		if rest != "" {
+			parts = append(parts, sym(rest))
+		}
+		body = append(body, form("list", parts...))
+	}
+	g.vars, g.level, g.where = saved, lvl, savedWhere
+	g.vars = g.vars[:mark]
+	// the arguments
+	args := []*ref.V{g.sub("ll", "arg", tI, d)}
+	for i := 0; i < nopt && g.chance(0.5); i++ {
+		args = append(args, g.sub("ll", "arg", tI, d))
+	}
+	if rest != "" && len(args) == 1+nopt {
+		for i := g.r.IntN(4); 0 < i; i-- {
+			args = append(args, g.sub("ll", "arg", tI, d))
+		}
+	}
+	perm := g.r.Perm(len(keys))
+	for _, k := range perm {
+		if g.chance(0.5) {
+			args = append(args, sym(":"+keys[k]), g.sub("ll", "arg", tI, d))
+		}
+	}
+	lam := append2([]*ref.V{list(ll...)}, body...)
+	switch style {
+	case 0:
+		return form("funcall", append2([]*ref.V{form("lambda", lam...)}, args...)...)
+	case 1:
+		return list(append2([]*ref.V{form("lambda", lam...)}, args...)...)
+	}
+	g.nfun++
+	fname := fmt.Sprintf("uf%d", g.nfun)
+	g.defs = append(g.defs, form("defun", append2([]*ref.V{sym(fname)}, lam...)...))
+	g.funcs = append(g.funcs, gfunc{name: fname, arity: 1, list: true})
+	return list(append2([]*ref.V{sym(fname)}, args...)...)
+}
+
+// loopClosureForm: closures over loop variables. do/do* assign one binding
+// (specified); within one dolist/dotimes iteration the variable is the
+// element (specified); a dolist/dotimes variable used after its iteration
+// is judged under both rules the language permits.
+func (g *gen) loopClosureForm(t typ, d int) *ref.V {
+	if t != tL && t != tA {
+		return nil
+	}
+	fs, _ := g.newName(nil)
+	v, _ := g.newName(map[string]bool{fs: true})
+	arg := g.sub("loopclosure", "arg", tI, d)
+	call := form("mapcar", form("lambda", list(sym("fn")), form("funcall", sym("fn"), arg)), sym(fs))
+	lim := num(int64(1 + g.r.IntN(3)))
+	switch g.r.IntN(5) {
+	case 0: // do: every closure sees the one binding and its final value
+		return form("let", list(list(sym(fs), ref.Nil)),
+			form("do", list(list(sym(v), num(0), form("1+", sym(v)))), list(form(">=", sym(v), lim)),
+				form("setq", sym(fs), form("cons", form("lambda", list(sym("d")), g.bare(), form("+", sym(v), sym("d"))), sym(fs)))),
+			call)
+	case 1: // do*: closures also assign a stepped variable
+		w, _ := g.newName(map[string]bool{fs: true, v: true})
+		return form("let", list(list(sym(fs), ref.Nil)),
+			form("do*", list(list(sym(v), num(0), form("1+", sym(v))), list(sym(w), g.lit(), form("+", sym(w), sym(v)))), list(form(">=", sym(v), lim), call),
+				form("setq", sym(fs), form("cons", form("lambda", list(sym("d")), form("setq", sym(w), form("+", sym(w), sym("d")))), sym(fs)))))
+	case 2: // dolist: created and called within the iteration
+		return form("let", list(list(sym(fs), ref.Nil)),
+			form("dolist", list(sym(v), g.sub("loopclosure", "list", tL, d), form("reverse", sym(fs))),
+				form("setq", sym(fs), form("cons", form("funcall", form("lambda", list(sym("d")), g.bare(), form("+", sym(v), sym("d"))), arg), sym(fs)))))
+	case 3: // dolist: called after the loop (either permitted rule)
+		return form("let", list(list(sym(fs), ref.Nil)),
+			form("dolist", list(sym(v), g.sub("loopclosure", "list", tL, d)),
+				form("setq", sym(fs), form("cons", form("lambda", list(sym("d")), form("list", sym(v), sym("d"))), sym(fs)))),
+			call)
+	}
+	// dotimes: called after the loop (either permitted rule)
+	return form("let", list(list(sym(fs), ref.Nil)),
+		form("dotimes", list(sym(v), lim),
+			form("setq", sym(fs), form("cons", form("lambda", list(sym("d")), form("+", sym(v), sym("d"))), sym(fs)))),
+		call)
 }
